@@ -3,7 +3,7 @@
    (the whole message, or the RDLENGTH window while decoding RDATA). *)
 From RsdnsModel Require Import Base Cursor Names Labels.
 From RsdnsModel.Spec Require Import WireName.
-From RsdnsModel.Proofs Require Import CursorSafe LabelsTotal LabelsSound LabelsComplete.
+From RsdnsModel.Proofs Require Import CursorSafe LabelsTotal LabelsSound LabelsComplete SpecExec.
 Open Scope N_scope.
 
 (* Any accepted name is the RFC 1035 §4.1.4 expansion (every pointer to a prior position, at most
@@ -59,3 +59,12 @@ Theorem C03_skip_complete : forall msg c ls,
   Forall (fun l => label_ok (snd l) = true) ls -> wire_len (map snd ls) <= 255 ->
   exists c', skip_name msg c = Ok c' /\ resume_at (vis msg c) (pos c) (pos c').
 Proof. exact skip_name_complete. Qed.
+
+(* the executable expander that the streams use as their oracle (Spec/WireName.v spec_name, also
+   the basis of Spec/LinearPass.v) decides exactly the relation these theorems are about *)
+Theorem C03_oracle_accepts_iff : forall msg p ls r,
+  spec_name msg p = SAccept ls r <-> expands msg None 0 p ls /\ resume_at msg p r.
+Proof. exact spec_name_accept_iff. Qed.
+Theorem C03_oracle_rejects_iff : forall msg p,
+  (exists w, spec_name msg p = SReject w) <-> ~ exists ls, expands msg None 0 p ls.
+Proof. exact spec_name_reject_iff. Qed.
